@@ -243,3 +243,4 @@ def check(ctx, rep):
     from . import metarules, shared
     _check_main(ctx, rep)
     metarules.frozen_error_bases(ctx, rep, "C07.EXC")
+    metarules.missing_default_contradiction(ctx, rep, "C07.INH")
